@@ -45,6 +45,7 @@ void vp_seq()
         int i = 0;
         for (auto it = w->begin(); it != w->end(); ++it) {
             vp_assert(i < n, 1223);
+            vp_log(1224, *it);
             vp_assert(*it == ref[i], 1224);
             i++;
         }
